@@ -34,13 +34,16 @@ ASSUMPTIONS = [
 ]
 
 SCNS = ["raw-bs2", "runner", "runner-df", "harv-jl-overlap",
-        "harv-h5-disjoint", "samp-pkl"]
+        "harv-h5-disjoint", "harv-jl-none", "samp-pkl"]
+# failures whose corrected retry is also made through the very objects (Crop
+# and its farmer) that saw the failure - a long-lived session
+LIVE = ("incomplete", "garbage", "shortres", "overlong", "conflict", "fault")
 CROPDIR = ".xyz-k"
 
 
 def cases(tier, seed):
     scns = SCNS if tier == "quick" else SCNS + [
-        "raw-nb4", "harv-h5-noext", "harv-jl-none", "samp-csv"]
+        "raw-nb4", "harv-h5-noext", "samp-csv"]
     for scn in scns:
         for cu, ai, wait, state in itertools.product(
                 (None, True, False), (False, True), (False, True),
@@ -51,7 +54,7 @@ def cases(tier, seed):
             if state == "missing" and not ai:
                 fails = ["incomplete"]
             if state == "complete":
-                fails += ["garbage", "overlong"]
+                fails += ["garbage", "overlong", "shortres"]
                 if scn == "runner" or scn.startswith("harv"):
                     # (DataFrame output does not validate the description)
                     fails.append("wrongdesc")
@@ -61,8 +64,10 @@ def cases(tier, seed):
             elif tier == "thorough" and ai:
                 fails.append("fault")
             for fl in fails:
-                yield {"scn": scn, "clean_up": cu, "allow_incomplete": ai,
-                       "wait": wait, "state": state, "failure": fl}
+                for live in ((False, True) if fl in LIVE else (False,)):
+                    yield {"scn": scn, "clean_up": cu, "allow_incomplete": ai,
+                           "wait": wait, "state": state, "failure": fl,
+                           "live": live}
 
 
 def worker_init():
@@ -100,6 +105,7 @@ class Env:
             ids = ids[:-1]
         crop.grow(ids, verbosity=0)
         self.base = fsseam.snapshot(self.d)
+        self.live = None
 
     def opts(self, overwrite=None):
         c = self.case
@@ -109,8 +115,17 @@ class Env:
             o["overwrite"] = overwrite
         return o
 
+    def session(self):
+        """the Crop (and farmer) object the next reap goes through: one
+        long-lived object for 'live' cases, a new session otherwise"""
+        if not self.case.get("live"):
+            return self.sc.fresh_crop(self.d)
+        if self.live is None:
+            self.live = self.sc.fresh_crop(self.d)
+        return self.live
+
     def reap(self, crop=None, **over):
-        crop = crop or self.sc.fresh_crop(self.d)
+        crop = crop or self.session()
         o = self.opts()
         o.update(over)
         if self.to_df:
@@ -192,7 +207,7 @@ def check_case(case):
             vio.append((key("not-refused"), "incomplete crop was reaped"))
         except Exception as e:
             after_raise(pre, e, "refused")
-            sc.fresh_crop(d).grow_missing(verbosity=0)
+            env.session().grow_missing(verbosity=0)
             try:
                 after_success(env.reap(), True, "retry")
             except Exception as e2:
@@ -201,11 +216,24 @@ def check_case(case):
                             % e2))
         return fin(case, vio, "incomplete")
     # ----------------------------------------------------- garbage / overlong
-    if fl in ("garbage", "overlong"):
+    if fl in ("garbage", "overlong", "shortres"):
         rfs = sorted(k for k in env.base if "results" + os.sep in k)
         if fl == "garbage":
             with open(os.path.join(d, rfs[0]), "wb") as fh:
                 fh.write(b"\x80\x04garbage")
+        elif fl == "shortres":
+            # a readable result holding fewer entries than its batch (the
+            # other thing check_bad exists for); which batch rotates
+            import pickle
+
+            which = (0, -1, len(rfs) // 2)[
+                ((case["clean_up"] is True) + 2 * (case["clean_up"] is None)
+                 + case["wait"]) % 3]
+            p_ = os.path.join(d, rfs[which])
+            with open(p_, "rb") as fh:
+                good = pickle.load(fh)
+            with open(p_, "wb") as fh:
+                pickle.dump(tuple(good)[:-1], fh)
         else:
             # a readable result holding more entries than its batch (what
             # check_bad exists for): noticed only after everything was read
@@ -231,7 +259,7 @@ def check_case(case):
         except Exception as e:
             after_raise(pre, e, fl)
             try:
-                c = sc.fresh_crop(d)
+                c = env.session()
                 with core.Silence():
                     c.check_bad()
                 c.grow_missing(verbosity=0)
@@ -314,6 +342,7 @@ def check_case(case):
         for k, t in enumerate(elig):
             nfault += 1
             fsseam.restore(d, base)
+            env.live = None
             pre = crop_tree(d)
             s2 = fsseam.Seam(d, mode="fault", fault_at=k, fault_kinds=KINDS)
             try:
